@@ -1,6 +1,6 @@
 SPECIFICATION Spec
 CONSTANTS
-  Component = "lanelet"
+  Component = "small"
   Precisions = {1, 4, 8, 12}
   NMixed = 0
   NShards = 1
